@@ -372,4 +372,36 @@ THEOREM MessageRev == SpecRev => []InvRev
     BY <2>1, <2>2 DEF NextRev
 <1>3. QED
   BY <1>1, <1>2, PTL DEF SpecRev
+
+-----------------------------------------------------------------------------
+(* The bulk is append-only while encoding and pop-only while decoding: a     *)
+(* word, once flushed, is never modified by later pushes, at most one word   *)
+(* is written per symbol, and decoding removes at most the last word (the    *)
+(* compressed data below the top is never touched by either operation).      *)
+THEOREM BulkDiscipline ==
+    ASSUME NEW x \in Cfgs, NEW c \in Nat, NEW p \in Nat
+    PROVE  /\ Len(EncCfg(x, c, p).bulk) \in {Len(x.bulk), Len(x.bulk) + 1}
+           /\ \A i \in 1..Len(x.bulk) : EncCfg(x, c, p).bulk[i] = x.bulk[i]
+           /\ Len(DecCfg(x, c, p).bulk) \in {Len(x.bulk), Len(x.bulk) - 1}
+           /\ \A i \in 1..Len(DecCfg(x, c, p).bulk) : DecCfg(x, c, p).bulk[i] = x.bulk[i]
+<1>1. x.bulk \in Seq(Nat)
+  BY DEF Cfgs
+<1>2. /\ Len(EncCfg(x, c, p).bulk) \in {Len(x.bulk), Len(x.bulk) + 1}
+      /\ \A i \in 1..Len(x.bulk) : EncCfg(x, c, p).bulk[i] = x.bulk[i]
+  BY <1>1 DEF EncCfg
+<1> DEFINE db == DecCfg(x, c, p).bulk
+<1> DEFINE fr == SubSeq(x.bulk, 1, Len(x.bulk) - 1)
+<1>3. db = x.bulk \/ (x.bulk # <<>> /\ db = fr)
+  BY DEF DecCfg
+<1>4. CASE db = x.bulk
+  BY <1>4, <1>1, <1>2
+<1>5. CASE x.bulk # <<>> /\ db = fr
+  <2>1. Len(fr) = Len(x.bulk) - 1 /\ \A i \in 1..(Len(x.bulk) - 1) : fr[i] = x.bulk[i]
+    BY <1>1, <1>5, FrontAppend
+  <2>2. Len(db) = Len(x.bulk) - 1 /\ \A i \in 1..Len(db) : db[i] = x.bulk[i]
+    BY <2>1, <1>5
+  <2>3. QED
+    BY <2>2, <1>2
+<1>6. QED
+  BY <1>3, <1>4, <1>5
 =============================================================================
